@@ -10,6 +10,7 @@ import ZygoVerif.Spec.Spacing
 import ZygoVerif.Model.InfixFront
 import ZygoVerif.Proofs.InfixFrontEnd
 import ZygoVerif.Proofs.PrattStratBlock
+import ZygoVerif.Proofs.FuelSuffices
 namespace ZygoVerif.Pratt
 open ZygoVerif.Stratified
 
@@ -150,13 +151,15 @@ def InFragment (T : Table) (ts : List Sx) : Prop :=
   inScope (grammarOf T) ts = true ∧
   ∀ t ∈ ts, (lbp T t).isSome ∧ (nudOf T t = .atom ∨ ∃ n r, nudOf T t = .pre n r)
 
-/-- THE FULL STATEMENT IN ITS ORIGINAL FORM (visible, NOT proved): for EVERY well-formed table and
-every token list of the fragment, with the concrete fuel of the two models. What is proved instead,
-for token lists of unbounded length: `pratt_iff_stratified` / `expand_iff_statements` below — the
-same statement for the table of the current tree and the documented levels, fuel-free ("returns …
-with enough fuel"). Missing for this form: (1) that `fuelFor` always suffices (a bound on the
-recursion depth of both parsers), (2) the generalisation from the regenerated table to every
-well-formed table (`grammarOf T` in place of `documented`). -/
+/-- THE STATEMENT IN ITS ORIGINAL FORM (kept visible). As written it is FALSE — `PrattEqStratified_counterexample`
+below: `InFragment` looks at the top-level tokens only, and inside a selector the two parsers differ on `if`
+(`a[if b c]`: pratt.go builds `(cond b c ())`, the grammar has no `if`). Its honest repair is proved: the fragment
+condition at every depth of selectors and the table/grammar correspondence as hypothesis —
+`PrattEqStratifiedRepaired` / `pratt_eq_stratified` (every table and grammar in correspondence `Corr`, concrete fuel
+of both executable models), `pratt_eq_stratified_generated` (regenerated table, documented levels). What the
+original generality ("every well-formed table") still lacks: a proof that `wellFormedB T` implies
+`Corr T (grammarOf T) (bpsOf T (grammarOf T))`; for the regenerated table `Corr` is established by `corr_generated`
+on every run. -/
 def PrattEqStratified : Prop :=
   ∀ (T : Table) (ts : List Sx), WellFormedTable T → InFragment T ts →
     expression T 0 ts = Stratified.parse (grammarOf T) ts
@@ -240,13 +243,167 @@ theorem expand_iff_statements (ts : List Sx) (hne : ts ≠ []) (h : inFragmentB 
   · intro hst; exact ⟨out, hst, by simp⟩
 
 /-- With the fuel the driver uses: whenever `expandBlock` (Pratt model) and `parseBlock` (stratified
-specification) both return, they return the same statements. (That their fuel always suffices is
-not proved; `pratt_eq_stratified_partial` and the correspondence check it.) -/
+specification) both return, they return the same statements. (Superseded by
+`expandBlock_eq_parseBlock_concrete` below: they are EQUAL, `none` included.) -/
 theorem expandBlock_eq_parseBlock (ts : List Sx) (hne : ts ≠ []) (h : inFragmentB ts = true) (o1 o2 : List Sx)
     (h1 : expandBlock Table.generated ts = some o1) (h2 : parseBlock documented ts = some o2) : o1 = o2 := by
   have a := (expand_iff_statements ts hne h o1).1 ⟨_, h1⟩
   have b : Stmts documented (staleOf ts) ts o2 := statements_sound _ _ _ _ _ h2
   exact Stmts_det a b
+
+/-! ### the fuel of the executable models always suffices
+
+`Model/Pratt.lean` and `Spec/Stratified.lean` are fuel-indexed, so `none` could mean "error return" or "fuel
+exhausted". With the fuel the DRIVER runs them with it never means the latter (`Proofs/FuelSuffices.lean`):
+termination measures — every recursive call is on a token list of strictly smaller weight (a round of the loop
+consumes a token; a selector recurses into its parts, which weigh less than the selector token; a label counts 2
+because `splitColonTailSelectorSymbols` makes it two tokens), and `fuelFor` exceeds the weight. -/
+
+theorem nudFrag_of_B {ts : List Sx} (h : inFragmentB ts = true) : fragList (okNudB Table.generated) ts = true :=
+  (frag_of_B h).nudFrag
+
+/-- **fuelFor_suffices** (model of pratt.go): for every token list of the fragment (any length, any nesting), every
+`rbp` and stale token: run with ANY fuel `f ≥ fuelFor ts`, `Expression` returns exactly what it returns with
+`fuelFor ts` — the same tree and rest, or the same error. So the outcome with `fuelFor ts` is THE outcome. -/
+theorem fuelFor_suffices (ts : List Sx) (h : inFragmentB ts = true) (rbp : Nat) (st : Sx) (f : Nat) (hf : fuelFor ts ≤ f) :
+    expr Table.generated f rbp st ts = expr Table.generated (fuelFor ts) rbp st ts :=
+  expr_fuelFor Table.generated (Corr.colonNud corr_generated) ts (nudFrag_of_B h) rbp st f hf
+
+/-- … a result obtained with any fuel at all is the result with `fuelFor ts` … -/
+theorem fuelFor_suffices_some (ts : List Sx) (h : inFragmentB ts = true) (rbp : Nat) (st : Sx) (f : Nat) (r : Sx × Sx × List Sx)
+    (hr : expr Table.generated f rbp st ts = some r) : expr Table.generated (fuelFor ts) rbp st ts = some r :=
+  expr_fuelFor_some Table.generated (Corr.colonNud corr_generated) ts (nudFrag_of_B h) rbp st f r hr
+
+/-- … and `none` with `fuelFor ts` is never a fuel shortage: no fuel gives a result (it is an error return of
+`Expression`, e.g. `a[1:2:3]`). -/
+theorem fuelFor_never_exhausted (ts : List Sx) (h : inFragmentB ts = true) (rbp : Nat) (st : Sx)
+    (hn : expr Table.generated (fuelFor ts) rbp st ts = none) (f : Nat) : expr Table.generated f rbp st ts = none :=
+  expr_fuelFor_none Table.generated (Corr.colonNud corr_generated) ts (nudFrag_of_B h) rbp st hn f
+
+/-- the same for the statement loop `InfixExpandArray` as the driver runs it -/
+theorem expandBlock_fuel_suffices (ts : List Sx) (h : inFragmentB ts = true) (f : Nat) (hf : fuelFor ts ≤ f) :
+    expandArray Table.generated f (staleOf ts) ts [] = expandBlock Table.generated ts :=
+  expandArray_fuelFor Table.generated (Corr.colonNud corr_generated) ts (nudFrag_of_B h) (noFor_of_B h) (staleOf ts) [] f hf
+
+/-- **the specification's fuel suffices** — for EVERY grammar and EVERY token list (no fragment condition): with any
+fuel `f ≥ Stratified.fuelFor G ts` the stratified parser returns what `Stratified.parse` computes. -/
+theorem stratified_fuelFor_suffices (G : Grammar) (E : Sx) (ts : List Sx) (f : Nat) (hf : Stratified.fuelFor G ts ≤ f) :
+    strat G E f G ts = strat G E (Stratified.fuelFor G ts) G ts :=
+  strat_fuelFor G E ts f hf
+
+/-- … and its statement loop never runs out: what `statements` returns with any fuel, `parseBlock` returns. -/
+theorem parseBlock_fuel_suffices (G : Grammar) (ts : List Sx) (f : Nat) (out : List Sx)
+    (h : statements G (staleOf ts) f ts = some out) : parseBlock G ts = some out :=
+  statements_complete G (staleOf ts) ts out (statements_sound _ _ _ _ _ h) _ (Nat.le_refl _)
+
+/-- non-vacuity: `statements` does return with a fuel other than `parseBlock`'s -/
+example : (statements documented (staleOf [.sym "a", .semi, .sym "b"]) 7 [.sym "a", .semi, .sym "b"]).isSome = true := by
+  decide +kernel
+
+/-- The repaired full statement: every table and grammar in correspondence, every token list of the fragment
+(at every depth), the CONCRETE fuel of both executable models. -/
+def PrattEqStratifiedRepaired : Prop :=
+  ∀ (T : Table) (G : Grammar) (bps : List Nat), Corr T G bps → ∀ ts : List Sx, Frag T G ts →
+    expression T 0 ts = Stratified.parse G ts
+
+/-- **pratt_eq_stratified**: `Pratt.Expression(0)` exactly as the driver runs the model (fuel `fuelFor ts`) EQUALS
+the stratified parse exactly as the driver runs the specification (fuel `Stratified.fuelFor G ts`): the same tree and
+unconsumed rest, or both `none` — and then neither returns with any fuel. From `pratt_iff_strat`, fuel monotonicity
+and the two termination measures. -/
+theorem pratt_eq_stratified : PrattEqStratifiedRepaired :=
+  fun _ _ _ hC ts hfr => expression_eq_parse_of_corr hC ts hfr
+
+/-- non-vacuity: a table/grammar pair in correspondence exists (the one of the working tree), with a token list of its fragment -/
+example : Corr Table.generated documented bpsG ∧ Frag Table.generated documented [.sym "a", .sym "+", .sym "b", .arr [.lab "i"]] :=
+  ⟨corr_generated, frag_of_B (by decide +kernel)⟩
+
+/-- … for the table regenerated from the working tree and the documented levels. -/
+theorem pratt_eq_stratified_generated (ts : List Sx) (h : inFragmentB ts = true) :
+    expression Table.generated 0 ts = Stratified.parse documented ts :=
+  expression_eq_parse_of_corr corr_generated ts (frag_of_B h)
+
+/-- **The statements of a block, concrete fuel**: `expandBlock` (model of `InfixExpandArray`, as the driver runs it)
+EQUALS `parseBlock` (specification, as the driver runs it) on every non-empty token list of the fragment — the same
+statement list, or both `none`. The `err` column of the correspondence is therefore never a model artefact. -/
+theorem expandBlock_eq_parseBlock_concrete (ts : List Sx) (hne : ts ≠ []) (h : inFragmentB ts = true) :
+    expandBlock Table.generated ts = parseBlock documented ts :=
+  expandBlock_eq_parseBlock_frag ts hne (frag_of_B h) (noFor_of_B h)
+
+mutual
+theorem Sx.same_refl : ∀ x : Sx, x.same x = true
+  | .sym _ => by simp [Sx.same]
+  | .dot _ => by simp [Sx.same]
+  | .lab _ => by simp [Sx.same]
+  | .lit _ => by simp [Sx.same]
+  | .other _ _ => by simp [Sx.same]
+  | .arr xs => by simp only [Sx.same]; exact sameList_refl xs
+  | .list xs => by simp only [Sx.same]; exact sameList_refl xs
+  | .comma => by simp [Sx.same]
+  | .semi => by simp [Sx.same]
+  | .hash => by simp [Sx.same]
+  | .null => by simp [Sx.same]
+theorem sameList_refl : ∀ xs : List Sx, sameList xs xs = true
+  | [] => by simp [sameList]
+  | x :: xs => by simp only [sameList, Bool.and_eq_true]; exact ⟨Sx.same_refl x, sameList_refl xs⟩
+end
+
+/-- The bounded theorem `pratt_eq_stratified_partial`, without its bounds: `agree` holds of EVERY non-empty token
+list of the fragment. -/
+theorem agree_of_fragment (ts : List Sx) (hne : ts ≠ []) (h : inFragmentB ts = true) : agree ts = true := by
+  unfold agree
+  rw [expandBlock_eq_parseBlock_concrete ts hne h]
+  cases parseBlock documented ts with
+  | none => simp [sameRes]
+  | some o => simp [sameRes, sameList_refl]
+
+/-- the selector holds one `cond` form -/
+def selIsCond : Option (Sx × List Sx) → Bool
+  | some (.list [_, _, .arr [.list (.sym "cond" :: _)]], _) => true
+  | _ => false
+
+/-- **The original statement `PrattEqStratified` is false**: `a[if b c]` satisfies `InFragment` (which looks at the
+top-level tokens only), the table of the tree is well-formed, and the Pratt model builds `(arrayidx a [(cond b c ())])`
+where the grammar of the table (no `if`) leaves the selector as written. -/
+theorem PrattEqStratified_counterexample : ¬ PrattEqStratified := by
+  intro hall
+  have hfrag : InFragment Table.generated [.sym "a", .arr [.sym "if", .sym "b", .sym "c"]] := by
+    refine ⟨by decide +kernel, ?_⟩
+    intro t ht
+    simp only [List.mem_cons, List.not_mem_nil, or_false] at ht
+    rcases ht with rfl | rfl
+    · exact ⟨by decide +kernel, Or.inl (by decide +kernel)⟩
+    · exact ⟨by decide +kernel, Or.inl (by decide +kernel)⟩
+  have heq := hall Table.generated _ (by unfold WellFormedTable; decide +kernel) hfrag
+  have h1 : selIsCond (expression Table.generated 0 [.sym "a", .arr [.sym "if", .sym "b", .sym "c"]]) = true := by
+    decide +kernel
+  have h2 : selIsCond (Stratified.parse (grammarOf Table.generated) [.sym "a", .arr [.sym "if", .sym "b", .sym "c"]]) = false := by
+    decide +kernel
+  rw [heq, h2] at h1
+  cases h1
+
+/-- non-vacuity of the fuel theorems: selectors nested five deep with a label-made colon, a slice and prefix
+operators are in the fragment, and both executable functions return (the same, by the theorem) -/
+example :
+    let ts : List Sx := [.sym "x", .sym "=", .sym "a", .arr [.sym "b", .arr [.sym "c", .arr [.sym "not", .sym "d",
+      .arr [.lab "i", .sym "e", .arr [.lit "1", .sym "+", .sym "*", .sym "p"]]], .sym ":", .lit "2"]], .semi, .sym "y", .sym "++"]
+    inFragmentB ts = true ∧ (expandBlock Table.generated ts).isSome = true ∧ (parseBlock documented ts).isSome = true ∧
+      (expression Table.generated 0 ts).isSome = true := by
+  decide +kernel
+
+/-- … `none` does occur inside the fragment, as an ERROR of pratt.go (two colons in a selector), on both sides … -/
+example :
+    let ts : List Sx := [.sym "a", .arr [.lit "1", .sym ":", .lit "2", .sym ":", .lit "3"]]
+    inFragmentB ts = true ∧ (expression Table.generated 0 ts).isNone = true ∧ (Stratified.parse documented ts).isNone = true ∧
+      (expandBlock Table.generated ts).isNone = true ∧ (parseBlock documented ts).isNone = true := by
+  decide +kernel
+
+/-- … and fuel does matter below the measure: `a + b * c` needs more than 4 units (so the theorems are not about a
+model that ignores its fuel). -/
+example :
+    let ts : List Sx := [.sym "a", .sym "+", .sym "b", .sym "*", .sym "c"]
+    (expr Table.generated 4 0 .null ts).isNone = true ∧ (expr Table.generated (fuelFor ts) 0 .null ts).isSome = true ∧
+    (strat documented .null 12 documented ts).isNone = true ∧ (Stratified.parse documented ts).isSome = true := by
+  decide +kernel
 
 /-- non-vacuity: a long mixed list is in the fragment, and both sides return -/
 example : inFragmentB [.sym "a", .sym "=", .sym "b", .sym "or", .sym "not", .sym "c", .sym "<", .sym "d", .sym "+", .sym "e",
@@ -366,6 +523,15 @@ theorem text_expandBlock_eq_parseBlock (x : Src) (xs : List Src) (items : List S
     (h2 : parseBlock documented (blockSx (x :: xs)) = some o2) : o1 = o2 := by
   rw [infix_text_expands Table.generated x xs hok items hitems hlegal] at h1
   exact expandBlock_eq_parseBlock _ (blockSx_ne_nil x xs hok) hfrag o1 o2 h1 h2
+
+/-- … concrete fuel, full equality: the statements `expandBlock` computes for the TEXT are exactly what `parseBlock`
+computes for the token list (`none` included). -/
+theorem text_expandBlock_eq_parseBlock_concrete (x : Src) (xs : List Src) (items : List Spacing.Item) (hok : okL (x :: xs) = true)
+    (hitems : items.map (·.2) = Src.flat (.block (x :: xs))) (hlegal : Spacing.legal '\x00' items = true)
+    (hfrag : inFragmentB (blockSx (x :: xs)) = true) :
+    (InfixFront.blockOf (Spacing.renderItems items)).bind (expandBlock Table.generated) = parseBlock documented (blockSx (x :: xs)) := by
+  rw [infix_text_expands Table.generated x xs hok items hitems hlegal]
+  exact expandBlock_eq_parseBlock_concrete _ (blockSx_ne_nil x xs hok) hfrag
 
 private def exSrc : List Src := [.tok (nm "a"), .tok (op "+"), .tok (nm "b"), .tok (op "*"), .tok (neg "1")]
 private def exItems : List Spacing.Item :=
